@@ -54,6 +54,7 @@ OPS = [
     ['zip', 'self_map'],
     ['key_zip', 'self_map'],
     ['key_zip', 'dict_same'],
+    ['key_zip', 'self_rev_map'],        # same keys in another order, a user function in front of the second input
 ]
 CORE = [op for op in OPS if op in (
     ['map', 'add10'], ['filter', 'is_odd', True], ['slice', [1, None, None]], ['batch', 2, False], ['items'],
@@ -83,6 +84,8 @@ def apply_real(ds, ref, op, stage, log):
     if name in ('concat', 'intersperse', 'zip', 'key_zip') and op[1] == 'self_map':
         other = ds.map(Instr(stage, fns.mul3, log))
         return {'concat': ds.concatenate, 'intersperse': ds.intersperse, 'zip': ds.zip, 'key_zip': ds.key_zip}[name](other)
+    if name == 'key_zip' and op[1] == 'self_rev_map':
+        return ds.key_zip(ds[::-1].map(Instr(stage, fns.mul3, log)))
     return B.apply(ds, ref, op)
 
 
@@ -90,12 +93,20 @@ def apply_model(dem, ref, op, stage):
     """Returns (cref, cdem) or raises R.Refuse."""
     cref = R.apply(ref, op)
     name = op[0]
+    if name == 'cache' and ref.keyed and not R.unique(ref.keys()):
+        # a cache over repeated keys is addressed by position or by key depending on the consumer; by key the repeats
+        # share one entry, so FEWER evaluations than positions are legitimate: outside the demand model
+        raise R.Refuse('cache over repeated keys')
     if name in ('concat', 'intersperse', 'zip', 'key_zip'):
         pref = R.partner(ref, op[1])
         if op[1] == 'self':
             pdem = dem
         elif op[1] == 'self_map':
             pdem = D.apply(dem, ref, ['map', 'mul3'], pref, stage)
+        elif op[1] == 'self_rev_map':
+            rev = ['slice', [None, None, -1]]
+            rref = R.apply(ref, rev)
+            pdem = D.apply(D.apply(dem, ref, rev, rref, stage), rref, ['map', 'mul3'], pref, stage)
         else:
             pdem = D.source(pref)
         return cref, D.apply(dem, ref, op, cref, stage, pdem, pref)
@@ -338,9 +349,9 @@ def run(tier):
     res = common.Result()
     tasks = []
     if tier == 'quick':
-        plans = [(2, OPS, SOURCES), (3, CORE, SOURCES[:2])]
+        plans = [(2, OPS, SOURCES), (4, CORE, SOURCES[:2])]
     else:
-        plans = [(3, OPS, SOURCES), (4, CORE, SOURCES[:2])]
+        plans = [(3, OPS, SOURCES), (5, CORE, SOURCES[:2])]
     total = collections.Counter()
     samples = []
     for depth, alphabet, sources in plans:
